@@ -9,7 +9,7 @@ def boundary_name(per, kind):
 def rhd_param(outdir, ncell=(8, 8, 8), nsub=(2, 2, 2), periodic=(True, True, True), side=(1.0, 1.0, 1.0),
               anchor=(0.0, 0.0, 0.0), wall="reflective", gamma=5. / 3., total_time=1.0e-3, cfl=0.2,
               min_dt=None, max_dt=None, blocks=None, radiation=False, seed=42, dump_every_step=False,
-              max_backups=1, nphoton=1000, niter=1, riemann="Exact", extra=""):
+              max_backups=1, nphoton=1000, niter=1, riemann="Exact", extra="", relative_paths=False):
     """Write <outdir>/run.param and <outdir>/blocks.yml; returns the param path.
 
     blocks: list of dicts(origin, sides, n (m^-3), T (K), v (m/s)) - default two
@@ -126,7 +126,7 @@ TaskBasedRadiationHydrodynamicsSimulation:
 %(dts)s%(extra)s
 TemperatureCalculator:
   do temperature calculation: false
-""" % dict(dir=outdir, nc0=ncell[0], nc1=ncell[1], nc2=ncell[2], ns0=nsub[0], ns1=nsub[1], ns2=nsub[2],
+""" % dict(dir="." if relative_paths else outdir, nc0=ncell[0], nc1=ncell[1], nc2=ncell[2], ns0=nsub[0], ns1=nsub[1], ns2=nsub[2],
            p0=bl(periodic[0]), p1=bl(periodic[1]), p2=bl(periodic[2]), gamma=gamma, riemann=riemann,
            bx=boundary_name(periodic[0], wall), by=boundary_name(periodic[1], wall),
            bz=boundary_name(periodic[2], wall),
